@@ -62,9 +62,38 @@ struct ColMajor {
   }
 };
 
+// objects that come out of the file readers differ internally from API-built ones (arrays sized exactly, a
+// row-major copy of the matrix attached): build, write as MPS, read back, and keep the result only if it
+// dumps as the very same model (otherwise the API-built object is used)
+static mpq_QSprob via_file(const Model &m, std::string *err) {
+  bool every_col_used = true, named = !m.name.empty();
+  std::vector<bool> used(m.n(), false);
+  for (auto &r : m.rows) { if (r.a.empty()) return nullptr; if (r.name.empty()) named = false; for (auto &kv : r.a) used[kv.first] = true; }
+  for (int j = 0; j < m.n(); j++) { if (m.cols[j].obj != 0) used[j] = true; if (!used[j]) every_col_used = false; if (m.cols[j].name.empty() || m.cols[j].isint) named = false; }
+  if (!every_col_used || !named || m.n() == 0 || m.m() == 0) return nullptr;
+  mpq_QSprob p0 = sut_build(m, R_BULK, err);
+  if (!p0) return nullptr;
+  std::string path = scratch_dir() + "/route.mps";
+  int wrc = mpq_QSwrite_prob(p0, path.c_str(), "MPS");
+  mpq_QSfree_prob(p0);
+  if (wrc) return nullptr;
+  mpq_QSprob p = mpq_QSread_prob(path.c_str(), "MPS");
+  unlink(path.c_str());
+  if (!p) return nullptr;
+  Model got;
+  std::string why;
+  if (!sut_dump(p, got, &why, false) || !model_equal(m, got, &why)) { mpq_QSfree_prob(p); return nullptr; }
+  return p;
+}
+
 mpq_QSprob sut_build(const Model &m, int route, std::string *err) {
   int n = m.n(), mm = m.m();
   mpq_QSprob p = nullptr;
+  if (route == R_FILE) {
+    p = via_file(m, err);
+    if (p) return p;
+    route = R_COLS_ROWS;
+  }
   auto E = [&](const std::string &s) -> mpq_QSprob {
     if (err) *err = s;
     if (p) mpq_QSfree_prob(p);
@@ -149,7 +178,8 @@ mpq_QSprob sut_build(const Model &m, int route, std::string *err) {
     std::vector<const char *> rn(mm);
     for (int i = 0; i < mm; i++) {
       rhs.set(i, m.rows[i].rhs);
-      rng.set(i, m.rows[i].sense == 'R' ? m.rows[i].range : Q(0));
+      // the range entry of a row that is not ranged is ignored by the library: hand it something non-zero
+      rng.set(i, m.rows[i].sense == 'R' ? m.rows[i].range : Q(7 + i, 3));
       sense[i] = m.rows[i].sense;
       rn[i] = cstr_or_null(m.rows[i].name);
     }
